@@ -591,14 +591,18 @@ static json one_query(Document& doc, const std::string& text, const json& req)
     expression_t e;
     size_t nprops = 0;
     int qt = -1;
+    // "preamble": property lines (strategy declarations) parsed in front of the query, in the same call; the query is the last line
+    const std::string preamble = req.value("preamble", std::string());
+    const size_t npre = req.value("preamble_props", 0);
     guarded(r, [&] {
         TigaPropertyBuilder pb(doc);
-        r["ret"] = parseProperty(text.c_str(), &pb);
+        r["ret"] = parseProperty((preamble.empty() ? text : preamble + "\n" + text).c_str(), &pb);
         nprops = pb.getProperties().size();
         if (nprops >= 1) {
             e = pb.getProperties().back().intermediate;
             qt = (int)pb.getProperties().back().type;
         }
+        nprops = nprops >= npre ? nprops - npre : 0;
     });
     r["nprops"] = nprops;
     r["quant"] = qt;
@@ -625,12 +629,13 @@ static json one_query(Document& doc, const std::string& text, const json& req)
         json g2;
         guarded(g2, [&] {
             TigaPropertyBuilder pb(doc);
-            parseProperty(s.c_str(), &pb);
+            parseProperty((preamble.empty() ? s : preamble + "\n" + s).c_str(), &pb);
             n2 = pb.getProperties().size();
             if (n2 >= 1) {
                 e2 = pb.getProperties().back().intermediate;
                 r["re_quant"] = (int)pb.getProperties().back().type;
             }
+            n2 = n2 >= npre ? n2 - npre : 0;
         });
         r["re_exc"] = g2["exc"];
         r["re_err"] = dump_errors(doc.get_errors());
